@@ -3,9 +3,9 @@ package art
 import "unsafe"
 
 const (
-	maxNode4     = uint8(4)
-	maxNode16    = uint8(16)
-	maxNode48    = uint8(48)
+	maxNode4     = uint16(4)
+	maxNode16    = uint16(16)
+	maxNode48    = uint16(48)
 	maxNode256   = 256
 	maxPrefixLen = 10
 )
@@ -23,7 +23,7 @@ const (
 
 type node struct {
 	prefixLen   uint32
-	childrenLen uint8
+	childrenLen uint16 // a node can hold 256 children: a byte-sized counter wraps to 0 there
 	prefix      [maxPrefixLen]byte
 }
 
@@ -80,7 +80,7 @@ func (ref *nodeRef) findChild(b byte) *nodeRef {
 	case nodeKind16:
 		n16 := (*node16)(ref.pointer)
 
-		if idx := searchNode16(&n16.keys, n16.childrenLen, b); idx != -1 {
+		if idx := searchNode16(&n16.keys, uint8(n16.childrenLen), b); idx != -1 {
 			return &n16.children[idx]
 		}
 
@@ -248,7 +248,7 @@ func (n16 *node16) clear() {
 
 func (n16 *node16) addChild(ref *nodeRef, b byte, child nodeRef) {
 	if n16.childrenLen < maxNode16 {
-		idx := insertPosNode16(&n16.keys, n16.childrenLen, b)
+		idx := insertPosNode16(&n16.keys, uint8(n16.childrenLen), b)
 
 		if idx != -1 {
 			loLimit := idx + 1
@@ -265,8 +265,8 @@ func (n16 *node16) addChild(ref *nodeRef, b byte, child nodeRef) {
 		n48 := nodePools[nodeKind48].Get().(*node48)
 
 		copy(n48.children[:n16.childrenLen], n16.children[:])
-		for i := uint8(0); i < n16.childrenLen; i++ {
-			n48.keys[n16.keys[i]] = i + 1
+		for i := uint16(0); i < n16.childrenLen; i++ {
+			n48.keys[n16.keys[i]] = uint8(i + 1)
 		}
 
 		n48.childrenLen = n16.childrenLen
@@ -282,7 +282,7 @@ func (n16 *node16) addChild(ref *nodeRef, b byte, child nodeRef) {
 }
 
 func (n16 *node16) deleteChild(ref *nodeRef, b byte) {
-	pos := searchNode16(&n16.keys, n16.childrenLen, b)
+	pos := searchNode16(&n16.keys, uint8(n16.childrenLen), b)
 
 	copy(n16.keys[pos:], n16.keys[pos+1:])
 	copy(n16.children[pos:], n16.children[pos+1:])
